@@ -33,3 +33,25 @@ CHECKS["C08"] = {
                "C08/varintbytes": {"class_error": 0.03, "class_need-more": 0.1},
                "C08/roundtrip": {"@nontrivial": 0.5}},
 }
+
+CHECKS["C09"] = {
+    "pkg": "./wire",
+    "level": "exploration",
+    "rule": ("A case is a script of 1..8 packets (1..4 frames each, sizes around 0/30/600/max, kinds 0..9, control bits, padded varints, ids advancing by +1, skips, new streams, "
+             "and at the 64-bit boundary) with hostile steps mixed in (kind change, missing done flag, id going backwards, reuse of a completed id), an optional tail "
+             "(garbage, truncated frame, never-completing frame declaring up to 2^64-1 bytes), a maximum from {1..20000, default}, and 2-3 partitions of the SAME bytes "
+             "into reads (byte-by-byte, all at once, drawn cuts, cuts around 4096, empty reads sprinkled, final error attached to the last data or delivered alone). "
+             "Oracle: packets and first-error class equal the reference reassembly (harness/ref/reassemble.go) for every partition, partitions agree with each other, "
+             "and reader buffers / largest requested read stay <= 4*max+64KiB. Non-trivial: >= 2 outcomes (packets + error), at least one multi-frame/discard/malformed/"
+             "truncation event, and the partitions differ. Sub-check hostile: endless oversized frame must be rejected within the memory bound; stall: >= 100 empty reads."),
+    "assumptions": ["reference reassembly written from the statement; first acceptable id is (stream 1, message 1) as the stream layer emits",
+                    "don't-care band: a frame whose header+payload exceeds max+28 by at most 3 bytes while its payload fits (headers can be 31 bytes, the reader budgets 28); ids exhausted at (2^64-1, 2^64-1)",
+                    "empty reads are outside the statement's quantifier; fewer than 99 in a row must not change the result"],
+    "subs": [
+        {"test": "TestC09Reassembly", "prop": "C09/reassembly", "quick": 60000, "thorough": 4000000, "shards_quick": 8, "shards_thorough": 16},
+        {"test": "TestC09Hostile", "prop": "C09/hostile", "quick": 300, "thorough": 5000, "shards_quick": 2, "shards_thorough": 4},
+        {"test": "TestC09Stall", "prop": "C09/stall", "quick": 300, "thorough": 3000, "shards": 1},
+    ],
+    "floors": {"C09/reassembly": {"@nontrivial": 0.2, "ev_discard_unfinished": 0.05, "ev_continuation": 0.3, "ev_id_backwards": 0.03, "ev_kind_change": 0.01,
+                                  "ev_oversize_packet": 0.02, "class_protocol": 0.2, "class_io": 0.2}},
+}
